@@ -6,10 +6,10 @@ Q = 'wn/_queries.py'
 A = 'wn/_add.py'
 MUTANTS = [
     {'name': 'closure-no-visited-guard', 'expect': 'C11-R1',
-     'edits': [E(C, """            if relatable.id not in visited:
-                visited.add(relatable.id)
+     'edits': [E(C, """            if relatable not in visited:
+                visited.add(relatable)
                 yield relatable
-                queue.extend(relatable.get_related(*args))""", """            visited.add(relatable.id)
+                queue.extend(relatable.get_related(*args))""", """            visited.add(relatable)
             yield relatable
             queue.extend(relatable.get_related(*args))""")]},
     {'name': 'closure-extend-outside-guard', 'expect': 'C11-R1',
@@ -19,10 +19,10 @@ MUTANTS = [
     {'name': 'closure-visited-reset-in-loop', 'expect': 'C11-R1',
      'edits': [E(C, """        while queue:
             relatable = queue.pop(0)
-            if relatable.id not in visited:""", """        while queue:
+            if relatable not in visited:""", """        while queue:
             relatable = queue.pop(0)
             visited = set(visited) if len(visited) < 1000 else set()
-            if relatable.id not in visited:""")]},
+            if relatable not in visited:""")]},
     {'name': 'relation_paths-no-visited-filter', 'expect': 'C11-R1',
      'edits': [E(C, """                related = [target for target in path[-1].get_related(*args)
                            if target not in visited]""", """                related = [target for target in path[-1].get_related(*args)]""")]},
@@ -83,12 +83,16 @@ MUTANTS = [
     {'name': 'get_related-via-set', 'expect': ['C11-R5', 'C16-R1'],
      'edits': [E(C, "        return unique_list(synset for _, synset in self._iter_relations(*args))", "        return list({synset for _, synset in self._iter_relations(*args)})")]},
     {'name': 'benign-closure-inverted-if', 'expect': 'silent',
-     'edits': [E(C, """            if relatable.id not in visited:
-                visited.add(relatable.id)
+     'edits': [E(C, """            if relatable not in visited:
+                visited.add(relatable)
                 yield relatable
-                queue.extend(relatable.get_related(*args))""", """            if relatable.id in visited:
+                queue.extend(relatable.get_related(*args))""", """            if relatable in visited:
                 continue
-            visited.add(relatable.id)
+            visited.add(relatable)
             yield relatable
             queue.extend(relatable.get_related(*args))""")]},
+    {'name': 'closure-visited-by-id', 'expect': ['C11-R6'],
+     'edits': [E(C, """            if relatable not in visited:
+                visited.add(relatable)""", """            if relatable.id not in visited:
+                visited.add(relatable.id)""")]},
 ]
